@@ -92,6 +92,17 @@ pub mod uci {
         pub fn position(f: &mut Flounder, parts: &[&str]) { f.handle_position_command(parts) }
         pub fn newgame(f: &mut Flounder) { f.handle_ucinewgame_command() }
         pub fn move_time(f: &Flounder, parts: &[&str], i: usize) -> Option<Duration> { f.calculate_move_time(parts, i) }
+        /// a Flounder of which only `board` is initialised (calculate_move_time reads nothing else); saves
+        /// the 20 s of symbolic execution that Searcher::new() costs.  Natively a full engine is built.
+        #[cfg(kani)]
+        pub fn with_board_only<R>(b: Board, f: impl FnOnce(&Flounder) -> R) -> R {
+            let mut m = core::mem::MaybeUninit::<Flounder>::uninit();
+            unsafe { core::ptr::addr_of_mut!((*m.as_mut_ptr()).board).write(b); f(&*m.as_ptr()) }
+        }
+        #[cfg(not(kani))]
+        pub fn with_board_only<R>(b: Board, f: impl FnOnce(&Flounder) -> R) -> R {
+            let mut fl = Flounder::new(); fl.board = b; f(&fl)
+        }
         pub fn board(f: &Flounder) -> &Board { &f.board }
         pub fn board_mut(f: &mut Flounder) -> &mut Board { &mut f.board }
         pub fn searcher(f: &Flounder) -> &Searcher { &f.searcher }
@@ -101,6 +112,10 @@ pub mod uci {
 pub mod hcommon;
 pub mod h_tt;
 pub mod h_search;
+pub mod h_time;
+pub mod h_loop;
+pub mod h_search2;
+pub mod h_uci;
 pub mod gen { #[cfg(not(kani))] pub mod registry; }
 #[cfg(not(kani))]
 mod native;
